@@ -45,6 +45,7 @@ def _(self: "TypeParameter", name: "Str", variance: "Opt[Variance]", bound: "Opt
     modifies(".name", ".supertypes", ".variance", ".bound")
     ensures("fields", same(self.name, name) and same(self.bound, bound) and len(self.supertypes) == 0)
     ensures("variance", implies(variance is not None, same(self.variance, variance)))
+    ensures("default-variance", implies(variance is None, same(self.variance, Invariant)))
     ensures("frame", forall(lambda o: implies(not same(o, self), unchanged(o))))
 
 
